@@ -196,6 +196,17 @@ def job_broadcast(job):
             y = MultiVector.fromkeysvalues(alg, tuple(bk), frac_vals(rng, bk))
             num = F(rng.randint(2, 5))
             scal = MultiVector.fromkeysvalues(alg, (0,), [num])
+            # plain Python ints and floats (the commonest numbers; a shortcut for them must still be the scalar multivector for every operator)
+            for pnum in (int(num), float(num) + 0.5, -1, 0.25):
+                pscal = MultiVector.fromkeysvalues(alg, (0,), [pnum])
+                for name, opf in INFIX.items():
+                    for side in ('left', 'right'):
+                        out['evaluations'] += 1
+                        got = _safe(lambda: opf(pnum, x) if side == 'left' else opf(x, pnum))
+                        exp = _safe(lambda: getattr(alg, name)(pscal, x) if side == 'left' else getattr(alg, name)(x, pscal))
+                        if got[0] != exp[0] or (got[0] == 'value' and not _mv_close(got[1], exp[1])):
+                            fail({'config': cfg, 'op': name, 'what': f'plain number on the {side} != scalar multivector on the {side}', 'a': showmv(ak, x.values()), 'number': repr(pnum),
+                                  'got': str(got)[:200], 'expected': str(exp)[:200]})
             for name, opf in INFIX.items():
                 for side in ('left', 'right'):
                     out['evaluations'] += 1
@@ -312,6 +323,9 @@ def job_register(job):
             for expr in ('a.involute()', 'a.conjugate()', '(~a)', 'a.reverse()', '(-a)', 'a.normsq()', '(a * b * ~a)', '(b - a.involute() * b)'):
                 for pk_ in pats_:
                     directed.append((expr, pk_))
+        # forms evaluated on a first argument that stores every blade (coefficient access by permuted spellings: nothing to read otherwise)
+        for expr in cfg.get('full_operand_forms', []):
+            directed.append((expr, tuple(range(2 ** alg.d))))
         # nested registered functions
         for expr, forced in [(e_, None) for e_ in todo] + directed:
             exprs.add(expr)
